@@ -147,6 +147,10 @@ def h_memory(e, subset, cached, order="asc", after="none"):
         v = e.int("b%d" % n_, 0, 255)
         mem.write_byte(CAND[k], f.UInt8(v), True) if cached else mem.write_byte(CAND[k], f.UInt8(v))
         written[CAND[k]] = v
+    # reads of never-written locations (next to the written bytes and far from them) leave no row
+    for ra in (2**14 + 64, 2**14 + 8, 2**32 - 8):
+        r_ = mem.read_word(ra, False) if cached else mem.read_word(ra)
+        e.claim_eq("unwritten-word-reads-zero@%x" % ra, val(r_), 0)
     rows = sim.get_data_memory_entries()
     words = sorted({a & ~3 for a in written})
     e.observe("addresses", [r[0][0] for r in rows])
